@@ -1,9 +1,10 @@
 (* Extraction of the size model (C17): build a filter-mode trie from keys and lay
    out the Slim message of creator.build.  ExtrOcamlBasic only. *)
 From Coq Require Import Extraction ExtrOcamlBasic.
-From Slim Require Import Base Keys Model Varint Proto Size.
+From Slim Require Import Base Keys Model Varint Proto Size SizeBitsCheck.
 Extraction Language OCaml.
 Extraction "sizemodel.ml"
   Byte.of_N Byte.to_N N.of_nat N.to_nat List.app
   Model.normalize Model.build
-  Size.encode_trie Size.marshal_size Proto.size_slim.
+  Size.encode_trie Size.marshal_size Proto.size_slim
+  SizeBitsCheck.same_bytes_with SizeBitsCheck.models_same_bytes.
